@@ -353,6 +353,14 @@ def sql_insert(ex, key, tbl, stt, params, e):
         ex.assume(Not(tbl.live[r]))
     cols, nulls = {}, {}
     vals = dict(zip(stt.cols, params))
+
+    def updated(arr, val, base, sort):
+        """arr with index r set to val, as a fresh array with a definitional axiom (E-matching friendly)
+        plus the ground instance at r"""
+        na = fresh(base, ArraySort(INT, sort))
+        ex.assume(FA([INT], lambda q: na[q] == If(q == r, val, arr[q]), pats=lambda q: [na[q], arr[q]]))
+        ex.assume(na[r] == val)
+        return na
     for c in sch.cols:
         if c.kind == "int" and c.pk:
             if c.name in vals:
@@ -361,16 +369,16 @@ def sql_insert(ex, key, tbl, stt, params, e):
         if c.name in vals:
             isn, t = to_opt(vals[c.name], c.kind)
             if c.nullable:
-                nulls[c.name] = Store(tbl.nulls[c.name], r, isn)
+                nulls[c.name] = updated(tbl.nulls[c.name], isn, "%s.%s.null~ins" % (key, c.name), BOOL)
             else:
                 # I10: this column must never receive None
                 ex.require(Not(isn), "NullIntoKeyColumn", e)
-            cols[c.name] = Store(tbl.cols[c.name], r, t)
+            cols[c.name] = updated(tbl.cols[c.name], t, "%s.%s~ins" % (key, c.name), sort_of(c.kind))
         else:
             if not c.nullable:
                 ex.require(BoolVal(False), "NullIntoKeyColumn", e)
             else:
-                nulls[c.name] = Store(tbl.nulls[c.name], r, BoolVal(True))
+                nulls[c.name] = updated(tbl.nulls[c.name], BoolVal(True), "%s.%s.null~ins" % (key, c.name), BOOL)
     # constraints: PRIMARY KEY uniqueness, FOREIGN KEY parents (A6)
     for c in sch.cols:
         if c.pk and not (c.kind == "int"):
@@ -382,7 +390,7 @@ def sql_insert(ex, key, tbl, stt, params, e):
             isn, t = to_opt(vals[c.name], c.kind)
             ex.require(Or(isn, ptbl.exists(lambda row, c=c, t=t: row._t.get(c.ref[1], row.r) == t)),
                        "IntegrityError", e)
-    ex.st.tabs[key] = tbl.with_(live=Store(tbl.live, r, True), cols=cols, nulls=nulls)
+    ex.st.tabs[key] = tbl.with_(live=updated(tbl.live, BoolVal(True), "%s.live~ins" % key, BOOL), cols=cols, nulls=nulls)
     return VCursor("insert", lastrowid=r)
 
 
